@@ -702,6 +702,27 @@ def run_params(cases):
 #  the check
 # ================================================================================================================
 
+def argument_reuse_checks():
+    """the requested architecture does not depend on what was built before from the same argument objects: one `hidden_units` list
+    (or one-shot iterator source) used for several networks, which must all get exactly the requested layers and leave the list alone"""
+    import torch
+    from neurodiffeq.networks import FCNN, Resnet
+    bad = []
+
+    def widths(net):
+        return [(m.in_features, m.out_features) for m in net.NN if isinstance(m, torch.nn.Linear)]
+    for cls in (FCNN, Resnet):
+        hu = [5, 7]
+        nets = [cls(2, 3, hidden_units=hu) for _ in range(3)]
+        target = nets if cls is FCNN else [n.residual for n in nets]
+        want = [(2, 5), (5, 7), (7, 3)]
+        got = [widths(n) for n in target]
+        if hu != [5, 7] or any(g != want for g in got):
+            bad.append(dict(case='one hidden_units list used for several networks', cls=cls.__name__, list_after=hu, layers=got, want=want,
+                            violated=['architecture differs from the requested hidden layers / the caller\'s list was modified']))
+    return bad
+
+
 def check(tier, seed):
     from ..sym import Untranslatable
     rep = Report(PID, tier, seed)
@@ -751,6 +772,7 @@ def check(tier, seed):
     mcases = monomial_cases(tier, rng)
     m_blocks, m_recs, f = run_monomial(mcases); failing += f
     p_blocks, p_reals, f = run_params(param_cases(rng)); failing += f
+    failing += argument_reuse_checks()
 
     all_blocks = a_blocks + f_blocks + s_blocks + m_blocks + p_blocks
     worst_lean = 0.0
